@@ -28,6 +28,19 @@ impl StateId {
     }
 }
 
+#[cfg(futures_intrusive_verif)]
+impl StateId {
+    /// Verification hook: the raw id.
+    pub fn verif_raw(self) -> u64 {
+        self.0
+    }
+
+    /// Verification hook: builds an id from a raw value.
+    pub fn verif_from_raw(raw: u64) -> StateId {
+        StateId(raw)
+    }
+}
+
 /// Tracks how the future had interacted with the channel
 #[derive(PartialEq, Debug)]
 pub enum RecvPollState {
@@ -163,6 +176,14 @@ impl<'a, MutexType, T: Clone> Drop for StateReceiveFuture<'a, MutexType, T> {
         if let Some(channel) = self.channel {
             channel.remove_receive_waiter(&mut self.wait_node);
         }
+    }
+}
+
+#[cfg(futures_intrusive_verif)]
+impl<'a, MutexType, T: Clone> StateReceiveFuture<'a, MutexType, T> {
+    /// Verification hook: address of the embedded wait node.
+    pub fn verif_node_addr(&self) -> usize {
+        &self.wait_node as *const _ as usize
     }
 }
 
@@ -419,6 +440,44 @@ impl<MutexType: RawMutex, T: Clone> ChannelReceiveAccess<T>
         wait_node: &mut ListNode<RecvWaitQueueEntry>,
     ) {
         self.inner.lock().remove_waiter(wait_node)
+    }
+}
+
+#[cfg(futures_intrusive_verif)]
+impl<MutexType: RawMutex, T> GenericStateBroadcastChannel<MutexType, T>
+where
+    T: Clone,
+{
+    /// Verification hook: the wait queue from head (newest) to tail (oldest).
+    pub fn verif_snapshot(&self, out: &mut [crate::verif::VerifNode]) -> usize {
+        let guard = self.inner.lock();
+        let mut n = 0;
+        guard.waiters.verif_for_each(out.len(), |node| {
+            out[n] = crate::verif::VerifNode {
+                addr: node as *const _ as usize,
+                state: match node.state {
+                    RecvPollState::Unregistered => 0,
+                    RecvPollState::Registered => 1,
+                    #[allow(unreachable_patterns)]
+                    _ => 2,
+                },
+                waker: crate::verif::waker_data(&node.task),
+                extra: 0,
+            };
+            n += 1;
+        });
+        n
+    }
+
+    /// Verification hook: plain view of the channel state.
+    pub fn verif_state(&self) -> (bool, u64, bool) {
+        let guard = self.inner.lock();
+        (guard.is_closed, guard.state_id.0, guard.value.is_some())
+    }
+
+    /// Verification hook: presets the state id (to reach the `u64::MAX` arm).
+    pub fn verif_set_state_id(&self, id: u64) {
+        self.inner.lock().state_id = StateId(id);
     }
 }
 
@@ -770,6 +829,74 @@ mod if_alloc {
                 state_id: StateId,
             ) -> Option<(StateId, T)> {
                 self.inner.channel.try_receive(state_id)
+            }
+        }
+
+        /// Verification hook: keeps the shared state observable after the
+        /// handles are gone, without taking part in the handle counts.
+        #[cfg(futures_intrusive_verif)]
+        pub struct VerifStateObserver<MutexType, T>
+        where
+            MutexType: RawMutex,
+            T: Clone + 'static,
+        {
+            inner: alloc::sync::Arc<
+                GenericStateBroadcastChannelSharedState<MutexType, T>,
+            >,
+        }
+
+        #[cfg(futures_intrusive_verif)]
+        impl<MutexType, T> VerifStateObserver<MutexType, T>
+        where
+            MutexType: RawMutex,
+            T: Clone,
+        {
+            /// Verification hook, see `GenericStateBroadcastChannel::verif_snapshot`.
+            pub fn verif_snapshot(
+                &self,
+                out: &mut [crate::verif::VerifNode],
+            ) -> usize {
+                self.inner.channel.verif_snapshot(out)
+            }
+
+            /// Verification hook, see `GenericStateBroadcastChannel::verif_state`.
+            pub fn verif_state(&self) -> (bool, u64, bool) {
+                self.inner.channel.verif_state()
+            }
+
+            /// Verification hook, see `GenericStateBroadcastChannel::verif_set_state_id`.
+            pub fn verif_set_state_id(&self, id: u64) {
+                self.inner.channel.verif_set_state_id(id)
+            }
+
+            /// Verification hook: (sender handles, receiver handles).
+            pub fn verif_counts(&self) -> (usize, usize) {
+                (
+                    self.inner.senders.load(Ordering::SeqCst),
+                    self.inner.receivers.load(Ordering::SeqCst),
+                )
+            }
+        }
+
+        #[cfg(futures_intrusive_verif)]
+        impl<MutexType, T> GenericStateSender<MutexType, T>
+        where
+            MutexType: RawMutex,
+            T: Clone,
+        {
+            /// Verification hook: an observer of the shared state.
+            pub fn verif_observer(&self) -> VerifStateObserver<MutexType, T> {
+                VerifStateObserver {
+                    inner: self.inner.clone(),
+                }
+            }
+        }
+
+        #[cfg(futures_intrusive_verif)]
+        impl<MutexType, T> StateReceiveFuture<MutexType, T> {
+            /// Verification hook: address of the embedded wait node.
+            pub fn verif_node_addr(&self) -> usize {
+                &self.wait_node as *const _ as usize
             }
         }
 
